@@ -1113,6 +1113,8 @@ class Gen:
         opts += [(3, 'tuple'), (2, 'untuple')]
         if C.is_float and (lists_on or ch.bool(0.3)):
             opts.append((5, 'grid3'))
+        if fn.is_main and depth > 0 and fn.ret_shape in ('pair', 'big') and not in_loop:
+            opts.append((6, 'mode-return'))
         if depth > 0:
             opts += [(8, 'if'), (4, 'if1'), (8, 'for'), (14, 'with'), (3, 'while')]
         if fn.is_main and self.helpers:
@@ -1297,6 +1299,8 @@ class Gen:
             out.append(f'{ind}{v} = {t}')
         elif k == 'grid3':
             self.grid3_scenario(fn, C, ind, out)
+        elif k == 'mode-return':
+            return self.mode_return_scenario(fn, C, ind, out, in_with)
         elif k == 'alias-call':
             return self.alias_call_scenario(fn, C, ind, out, in_with, in_loop)
         elif k == 'return':
@@ -1443,6 +1447,35 @@ class Gen:
             return r
         return False
 
+
+    def mode_return_scenario(self, fn, C, ind, out, in_with):
+        """A tuple `return` with a computed field lexically inside a `with` block (possibly two, nested) whose rounding mode
+        differs from the one in force outside: the field must be evaluated before the emitted code restores the mode."""
+        ch = self.ch
+        outer_rm = C.rm if C.is_float else None
+        K = Ctx(fn.ret_kind, ch.choice([r for r in RMS if r != outer_rm]))
+        lines = [f'{ind}with {K.text}:']
+        inner = ind + '    '
+        if ch.bool(0.3):
+            K2 = Ctx(fn.ret_kind, ch.choice([r for r in RMS if r != K.rm]))
+            lines.append(f'{inner}with {K2.text}:')
+            inner += '    '
+            K = K2
+            self.features.add('nested-with')
+        cond = ch.bool(0.7)
+        if cond:
+            lines.append(f'{inner}if {self.boolean(fn, K, 1)}:')
+            inner += '    '
+        t = self.return_text(fn, K)
+        if t is None:
+            return False
+        lines.append(f'{inner}return {t}')
+        out += lines
+        self.features.add('with')
+        self.features.add('early-return-inside-with')
+        self.features.add('mode-return')
+        self.features.add('ctx:' + K.kind + '/' + K.rm)
+        return not cond
 
     def grid3_scenario(self, fn, C, ind, out):
         """A list nested three deep, a projection of one of its cells (or rows) held in a name, a multi-index store that puts
